@@ -72,7 +72,7 @@ THEOREM WindowDistinct ==
 <1>1. CASE i < j
     <2>1. (s + i) % M \in 0..(M - 1)
         BY SMT
-    <2>2. ((s + i) % M + (j - i)) % M = (s + j) % M
+    <2>2. (((s + i) % M) + (j - i)) % M = (s + j) % M
         <3>1. s + i \in 0..(2 * M - 1) /\ j - i \in 0..(M - 1) /\ (s + i) + (j - i) <= 2 * M - 1
             BY <1>1, SMT
         <3>2. (s + i) + (j - i) = s + j
@@ -84,7 +84,7 @@ THEOREM WindowDistinct ==
 <1>2. CASE j < i
     <2>1. (s + j) % M \in 0..(M - 1)
         BY SMT
-    <2>2. ((s + j) % M + (i - j)) % M = (s + i) % M
+    <2>2. (((s + j) % M) + (i - j)) % M = (s + i) % M
         <3>1. s + j \in 0..(2 * M - 1) /\ i - j \in 0..(M - 1) /\ (s + j) + (i - j) <= 2 * M - 1
             BY <1>2, SMT
         <3>2. (s + j) + (i - j) = s + i
